@@ -12,6 +12,7 @@ from pyvc.unit import unit
 
 MAIN = "androguard/cli/main.py"
 META = {
+    "technique": 'contract-based deductive verification: symbolic execution of the real functions against sidecar contracts (z3/cvc5) for the proved units; bounded contract evaluation (enumerated scope / independent writer) for the rest',
     "level": "other",
     "partial": True,
     "level_text": "Proof: valid_class_name is executed on class names L<s>; and <s> with 1..5 symbolic code points (any character "
